@@ -185,6 +185,14 @@ func checkC07(e *Env) {
 			}
 			env = []string{"VERIF_EARLYRAND=" + mode}
 			obs.Inc("processes_with_interposer_mode_" + strings.SplitN(mode, ":", 2)[0])
+			switch (p / 2) % 8 {
+			case 0, 1, 4, 6:
+				// the modes that deliver everything also run in a hostile environment: variables a
+				// process might take for a seed file, a fixed seed or a deterministic/debug switch.
+				// What crypto/rand.Reader delivered must still determine every sentence.
+				env = append(env, hostileEnv(e, (p/16)%2)...)
+				obs.Inc("processes_with_hostile_environment_" + []string{"seed-files", "flags"}[(p/16)%2])
+			}
 		}
 		ops := planFor(p, true)
 		res, died := e.RunProc(drv, ops, env, 0)
@@ -559,6 +567,22 @@ func parseGetrandom(trace string) (out [][]byte, unparsed int) {
 		unparsed = 0
 	}
 	return out, unparsed
+}
+
+// hostileEnv returns environment variables that name a readable, non-empty seed file (variant 0;
+// RANDFILE and $HOME/.rnd are OpenSSL's conventions) or fixed seeds and deterministic/debug
+// switches (variant 1). The library reads none of them; one that does lets something other than
+// the OS source decide the mnemonic.
+func hostileEnv(e *Env, variant int) []string {
+	dir := e.Verif + "/golden/hostile-env"
+	if variant == 0 {
+		f := dir + "/seedfile"
+		return []string{"HOME=" + dir + "/home", "RANDFILE=" + f, "SEEDFILE=" + f, "SEED_FILE=" + f, "ENTROPY_FILE=" + f, "BIP39_RANDFILE=" + f,
+			"BIP39_SEED_FILE=" + f, "BIP39_ENTROPY_FILE=" + f, "BIP39_RAND=" + f, "BIP39_SOURCE=" + f, "EGD_PATH=" + f}
+	}
+	fixed := strings.Repeat("00", 32)
+	return []string{"SOURCE_DATE_EPOCH=1", "SEED=1", "RANDOM_SEED=1", "RAND_SEED=1", "TEST_SEED=1", "GO_TEST_SEED=1", "BIP39_SEED=1", "BIP39_ENTROPY=" + fixed,
+		"ENTROPY=" + fixed, "BIP39_DETERMINISTIC=1", "DETERMINISTIC=1", "BIP39_DEBUG=1", "BIP39_TEST=1", "BIP39_INSECURE=1", "BIP39_FAST=1", "DEBUG=1", "TESTING=1", "CI=true", "GO_ENV=test", "ENV=test"}
 }
 
 func c07env(ci int) []string {
